@@ -718,6 +718,11 @@ func (cachefile *cacheFile) setData(streamID uint64, streamTime time.Time, conve
 		return fmt.Errorf("failed to flush writer: %w", err)
 	}
 
+	// A record that this one supersedes has to stay dead when the file is opened again.
+	if info, ok := cachefile.streamInfos[streamID]; ok {
+		cachefile.discardRecord(streamID, info)
+	}
+
 	// Remember where to look for this stream.
 	cachefile.streamInfos[streamID] = streamInfo{
 		offset: cachefile.fileSize + streamHeaderSize,
@@ -743,22 +748,27 @@ func (cachefile *cacheFile) InvalidateChangedStreams(streams *bitmask.LongBitmas
 		// delete the stream from the in-memory index
 		// it will be re-added when the stream is converted again
 		if info, ok := cachefile.streamInfos[uint64(streamID)]; ok {
-			// mark the record as invalid in the file as well, it would be picked up again when the file is reopened
-			tombstone := [streamHeaderSize]byte{}
-			binary.LittleEndian.PutUint64(tombstone[:], invalidStreamID)
-			if _, err := cachefile.file.WriteAt(tombstone[:], info.offset-streamHeaderSize); err != nil {
-				log.Printf("Failed to invalidate stream %d in cache file %q: %v", streamID, cachefile.cachePath, err)
-			}
-			cachefile.freeSize += int64(info.size) + streamHeaderSize
-			if cachefile.freeStart > info.offset-streamHeaderSize {
-				cachefile.freeStart = info.offset - streamHeaderSize
-			}
+			cachefile.discardRecord(uint64(streamID), info)
 			delete(cachefile.streamInfos, uint64(streamID))
 			invalidatedStreams.Set(streamID)
 		}
 	}
 
 	return invalidatedStreams
+}
+
+// discardRecord marks the record of a stream as invalid in the file, it would be picked
+// up again when the file is reopened, and accounts its space as free.
+func (cachefile *cacheFile) discardRecord(streamID uint64, info streamInfo) {
+	tombstone := [streamHeaderSize]byte{}
+	binary.LittleEndian.PutUint64(tombstone[:], invalidStreamID)
+	if _, err := cachefile.file.WriteAt(tombstone[:], info.offset-streamHeaderSize); err != nil {
+		log.Printf("Failed to invalidate stream %d in cache file %q: %v", streamID, cachefile.cachePath, err)
+	}
+	cachefile.freeSize += int64(info.size) + streamHeaderSize
+	if cachefile.freeStart > info.offset-streamHeaderSize {
+		cachefile.freeStart = info.offset - streamHeaderSize
+	}
 }
 
 // func (writer *writer) invalidateStream(stream *index.Stream) error {
